@@ -245,6 +245,24 @@ function mk(id, outs) {
 		return o;
 	};
 	return {valueOf: f, toString: f};
+}
+var RETOBJ = {};
+function script(tag, outs) {
+	var i = 0;
+	return function () {
+		log += tag;
+		var o = outs[i < outs.length ? i : outs.length - 1];
+		i++;
+		if (o === THROW) { throw new Error("script"); }
+		if (o === RETOBJ) { return {}; }
+		return o;
+	};
+}
+function mk2(vo, ts) {
+	var o = {};
+	if (vo !== undefined) { o.valueOf = vo; }
+	if (ts !== undefined) { o.toString = ts; }
+	return o;
 }`
 
 // implSeq runs String.prototype.<m>.call(R, A0, A1, …) where each operand is a primitive (P<value>) or an object
@@ -268,6 +286,41 @@ func implSeq(m, rt string, as []string) (res string) {
 				return "", false
 			}
 			return name, true
+		}
+		if strings.HasPrefix(tok, "D") {
+			// distinct valueOf / toString scripts: `-` absent, `~` not callable, else outcomes (`!` throw, `@` returns an object)
+			parts := strings.Split(tok[1:], "|")
+			if len(parts) != 2 {
+				return "", false
+			}
+			var fs [2]string
+			for k, part := range parts {
+				switch part {
+				case "-":
+					fs[k] = "undefined"
+				case "~":
+					fs[k] = "1"
+				default:
+					var outs []string
+					for _, o := range strings.Split(part, "/") {
+						switch o {
+						case "!":
+							outs = append(outs, "THROW")
+						case "@":
+							outs = append(outs, "RETOBJ")
+						default:
+							name := fmt.Sprintf("v%d", nv)
+							nv++
+							if vm.Set(name, h.ParseVal(o)) != nil {
+								return "", false
+							}
+							outs = append(outs, name)
+						}
+					}
+					fs[k] = `script("` + id + []string{"v", "t"}[k] + `", [` + strings.Join(outs, ",") + `])`
+				}
+			}
+			return "mk2(" + fs[0] + ", " + fs[1] + ")", true
 		}
 		if !strings.HasPrefix(tok, "O") {
 			return "", false
@@ -892,6 +945,40 @@ func genC09(c *h.Ctx) {
 					toks = append(toks, shape(k, r.Intn(6)))
 				}
 				c.Add("seq "+m.name+" "+strings.Join(toks, " "), "seq:"+m.name)
+			}
+		}
+		// WHICH method converts each operand: objects with distinct valueOf and toString (both logging, returning
+		// different primitives), either one absent, not callable, throwing, or returning an object
+		dual := func(kind byte) string {
+			nv, sv := []string{fTok(0), fTok(1), fTok(2), fTok(-1), fTok(3), "b:1"}[r.Intn(6)], []string{h.BytesTok("b"), h.BytesTok(","), h.BytesTok("s"), h.BytesTok("2"), h.BytesTok("")}[r.Intn(5)]
+			if kind == 's' && r.Chance(30) {
+				nv = h.BytesTok("v")
+			}
+			vo := []string{nv, nv, nv, "-", "~", "@", "!", nv + "/" + nv}[r.Intn(8)]
+			ts := []string{sv, sv, sv, "-", "~", "@", "!", sv + "/" + sv}[r.Intn(8)]
+			return "D" + vo + "|" + ts
+		}
+		for _, m := range meths {
+			n := len(m.kinds) + 1
+			for i := 0; i < c.N(500, 30000); i++ {
+				recv := recvs[r.Intn(len(recvs))]
+				var toks []string
+				switch r.Intn(4) {
+				case 0:
+					toks = append(toks, "D"+[]string{fTok(7), "-", "~", "@", "!"}[r.Intn(5)]+"|"+[]string{h.BytesTok(recv), h.BytesTok(recv), "-", "~", "@", "!"}[r.Intn(6)])
+				case 1:
+					toks = append(toks, "O"+h.BytesTok(recv))
+				default:
+					toks = append(toks, "P"+h.BytesTok(recv))
+				}
+				for j := 1; j < n; j++ {
+					if r.Chance(75) {
+						toks = append(toks, dual(m.kinds[j-1]))
+					} else {
+						toks = append(toks, shape(m.kinds[j-1], r.Intn(6)))
+					}
+				}
+				c.Add("seq "+m.name+" "+strings.Join(toks, " "), "seqD:"+m.name)
 			}
 		}
 		// split with a limit that converts to 0, replace with and without a match
